@@ -16,7 +16,7 @@ def sessions(ctx):
         yield from sessbase.rich_sessions(ctx, 1000033, ctx.pick(40, 400))
         for k in range(ctx.pick(6, 30)):
             r2 = random.Random(ctx.seed * 37 + k)
-            yield (c02.churn_session(r2, r2.choice([10, 40]), server_side=k % 2 == 0, srv=k % 3 == 0),
+            yield (c02.churn_session(r2, r2.choice([10, 40]), server_side=k % 2 == 0, srv=k % 3 == 0, back=k % 4 == 1),
                    {'dialect': 'new' if k % 2 else 'old'}, 'churn')
     return it
 
